@@ -114,6 +114,9 @@ func cmdCheck(args []string) int {
 	if tr := w.tagObligations(*prop); len(tr.Obls) > 0 {
 		results = append(results, tr)
 	}
+	if tr := w.writersObligations(*prop); len(tr.Obls) > 0 {
+		results = append(results, tr)
+	}
 	dir, _ := os.MkdirTemp("", "govc-")
 	defer os.RemoveAll(dir)
 	for _, k := range loadKnown(*known) {
@@ -235,6 +238,9 @@ func cmdCheck(args []string) int {
 		}
 		rf := &ReplayFile{Property: *prop, Obligation: o.Name, Function: o.Fn, Kind: o.Kind, Position: o.Pos.String(), Model: v.Model,
 			Solver: v.Solver, SolverOut: truncate(v.Detail, 4000), Repo: *repo}
+		if o.Detail != "" {
+			rf.SolverOut = o.Detail + "\n" + rf.SolverOut
+		}
 		if v.Status == "refuted" {
 			rf.Status = "refuted"
 		} else {
@@ -307,9 +313,9 @@ func cmdCheck(args []string) int {
 			"known_findings_hit":       knownHit,
 			"per_obligation_timeout_s": timeout,
 		},
-		"assumptions": assumptions,
-		"wall_s":      round2(time.Since(t0).Seconds()),
-		"violations":  nviol,
+		"assumptions":    assumptions,
+		"wall_s":         round2(time.Since(t0).Seconds()),
+		"violations":     nviol,
 		"violation_list": violList,
 	}
 	if *out != "" {
